@@ -110,3 +110,101 @@ Proof.
   reflexivity.
 Qed.
 
+
+(* ------------------------------------------------------------------ *)
+(* a panic recorded before the caller looks at `output` is re-raised   *)
+(* ------------------------------------------------------------------ *)
+(* no ctx and no cancel so far; backwards closed along runs *)
+Definition calm (s : state) : Prop := ctxd s = false /\ conce s = ONone.
+
+Lemma calm_back_step : forall cf s l s', step cf s l = Some s' -> calm s' -> calm s.
+Proof.
+  intros cf s l s' H [Q1 Q2]. destruct (flags_mono_step _ _ _ _ H) as (M1 & _ & _ & _ & _ & M6).
+  split.
+  - destruct (ctxd s); auto. rewrite M1 in Q1; auto.
+  - destruct (conce s) eqn:E; auto; exfalso; apply M6; congruence.
+Qed.
+
+Lemma calm_ind : forall cf (P : state -> Prop),
+  (calm (init cf) -> P (init cf)) ->
+  (forall s l s', reachable cf s -> calm s -> calm s' -> P s -> step cf s l = Some s' -> P s') ->
+  forall s, reachable cf s -> calm s -> P s.
+Proof.
+  intros cf P H0 HS.
+  apply (reach_ind cf (fun s => calm s -> P s)); [exact H0|].
+  intros s l s' R IH St Q'. pose proof (calm_back_step _ _ _ _ St Q') as Q.
+  eapply HS; eauto.
+Qed.
+
+Definition c_noout (p : cpc) : bool :=
+  match p with CDefer ONoOutput | CDone ONoOutput => true | _ => false end.
+
+(* in calm runs the caller reports "no output" only if no panic was recorded when it looked, and then
+   output is closed: reducer, generator and all mappers are gone, so none is ever recorded *)
+Definition invE (s : state) : Prop := c_noout (c s) = true -> wrote s = false /\ fin s = true.
+
+Lemma invE_step : forall cf s l s',
+  reachable cf s -> calm s -> calm s' -> invE s -> step cf s l = Some s' -> invE s'.
+Proof.
+  intros cf s l s' R Q Q' I H. unfold invE, calm in *.
+  destruct (invS_reach cf s R) as (I1 & I2 & I3 & I4 & I5 & _ & _ & I8).
+  destruct (invA_reach cf s R) as (_ & _ & IA3 & _).
+  pose proof (invO3_reach cf s R) as IO3. unfold invO3 in IO3.
+  destruct s; sproj. destruct Q as (? & ?). subst.
+  assert (reterr = None) by (apply IA3; reflexivity). subst. clear IA3.
+  open_step' l H.
+  all: try solve [destruct Q' as (? & ?); discriminate].
+  all: clear Q'.
+  all: cbn [c_noout] in *.
+  all: try assumption; try discriminate.
+  all: try solve [intro X; destruct (I X); split; auto].
+  all: try solve [split; reflexivity].
+  all: intro X; exfalso; destruct (I X) as [_ F]; destruct (I1 F) as [Y|Y]; try discriminate Y.
+  all: subst r; specialize (I2 eq_refl); specialize (I4 I2).
+  - destruct (I3 I2) as [Z|Z]; subst x; destruct (I8 eq_refl) as [U|[U|[U|U]]];
+      try discriminate U; try congruence; apply I5 in U; discriminate U.
+  - w_contra.
+Qed.
+
+Lemma invE_calm : forall cf s, reachable cf s -> calm s -> invE s.
+Proof.
+  intros cf. apply (calm_ind cf invE).
+  - intros _ H. discriminate H.
+  - intros s l s' R Q Q' I H. eapply invE_step; eauto.
+Qed.
+
+Theorem panic_reraise : forall cf s o, reachable cf s -> ctxd s = false -> conce s = ONone ->
+  wrote s = true -> c s = CDone o ->
+  (exists p, o = OPanic p /\ fpanic s = Some p) \/ (exists k, o = ORet k) \/ o = OPanicTwice.
+Proof.
+  intros cf s o R Q1 Q2 Wr Hc.
+  assert (Ho : caller_outcome s = Some o) by (unfold caller_outcome; rewrite Hc; reflexivity).
+  pose proof (result_sound cf s o R Ho) as S.
+  pose proof (invE_calm cf s R (conj Q1 Q2)) as E. unfold invE in E. rewrite Hc in E.
+  destruct o; simpl in *.
+  - right; left; eauto.
+  - exfalso. destruct S as [[_ S]|S]; [congruence|].
+    destruct (once_states cf s R) as [_ O]. apply O in Q2. congruence.
+  - exfalso. destruct (E eq_refl). congruence.
+  - left; eauto.
+  - right; right; reflexivity.
+Qed.
+
+Lemma In_writes : forall k a, In (RWrite k) a -> writes a <> [].
+Proof.
+  intros k a H. apply in_split in H. destruct H as (l1 & l2 & ->).
+  rewrite writes_app. simpl. destruct (writes l1); discriminate.
+Qed.
+
+Corollary panic_reraise_nowrite : forall cf s o, reachable cf s -> ctxd s = false ->
+  conce s = ONone -> wrote s = true -> c s = CDone o -> writes (rafter cf) = [] ->
+  exists p, o = OPanic p /\ fpanic s = Some p.
+Proof.
+  intros cf s o R Q1 Q2 Wr Hc W.
+  assert (Ho : caller_outcome s = Some o) by (unfold caller_outcome; rewrite Hc; reflexivity).
+  pose proof (result_sound cf s o R Ho) as S.
+  destruct (panic_reraise cf s o R Q1 Q2 Wr Hc) as [H|[[k ->]| ->]]; auto; exfalso.
+  - apply (In_writes _ _ S W).
+  - rewrite W in S. simpl in S. lia.
+Qed.
+
